@@ -314,6 +314,7 @@ func (l *foLabels) wNew(k int64)                 { l.add(21, k, 1) }
 func (l *foLabels) wAcc(k int64)                 { l.add(22, k) }
 func (l *foLabels) wFlush(k int64, last bool)    { l.add(23, k, b2i(last)) }
 func (l *foLabels) write(c int64)                { l.add(24, c, 0) }
+func (l *foLabels) writeFail(c int64)            { l.add(24, c, 1) }
 
 // request of n fragments arriving on connection c for a new inbound call k, all read
 func (l *foLabels) inboundRequest(c, k int64, n int) {
@@ -576,8 +577,8 @@ func foRaw(rng *rand.Rand, items []foItem) (labels []int64, codes []int64, fault
 			case 1:
 				l.inboundRequest(c, k, len(frames))
 				l.closeLast(k)
-				l.respSysErr(k)
-				l.connSysErr(c)
+				l.connSysErr(c) // InboundCallResponse.SendSystemError queues the error frame first,
+				l.respSysErr(k) // then shuts the exchange down and releases the fragment it holds
 				l.write(c)
 				if v == "" && !isErr && verdict == "" {
 					verdict = "system error handler did not produce an error frame"
@@ -585,8 +586,8 @@ func foRaw(rng *rand.Rand, items []foItem) (labels []int64, codes []int64, fault
 			case 2:
 				// arg1 read, no handler: SendSystemError releases the fragment the reader holds
 				l.inboundRequest(c, k, 1)
-				l.respSysErr(k)
 				l.connSysErr(c)
+				l.respSysErr(k)
 				l.write(c)
 			}
 		case 3, 4: // the call's frame sequence is cut at fragment pos: bad checksum there (3) or silence after it (4)
@@ -816,9 +817,11 @@ func foDirect(rng *rand.Rand, calls []foCall) (labels []int64, codes []int64, ve
 			if err == nil && verdict == "" {
 				verdict = "system error call returned no error"
 			}
-			l.respSysErr(ks)
+			// the error frame is queued first; the handler's goroutine is parked behind the send
+			// until the writer has released the frame, then shuts its exchange down
 			l.connSysErr(2)
 			l.write(2)
+			l.respSysErr(ks)
 			l.readFwd(1, kc, 1)
 			l.fetch(kc, true, true)
 			continue
@@ -953,9 +956,9 @@ func foRelay(rng *rand.Rand, calls []foCall, appendArg2 bool) (labels []int64, c
 			if err == nil && verdict == "" {
 				verdict = "system error call through the relay returned no error"
 			}
-			l.respSysErr(ks)
 			l.connSysErr(4)
 			l.write(4)
+			l.respSysErr(ks)
 			l.relaySend(3, 2)
 			l.write(2)
 			l.readFwd(1, kc, 1)
